@@ -2,16 +2,13 @@
 (* Enumerated case families for the design layer of TargetUri. *)
 EXTENDS TargetUri
 
-HostClasses == {"dns", "v4", "v6full", "v6c", "v6z"}
-HostOf(hc) ==
+MCHostClasses == {"dns", "v4", "v6full", "v6c", "v6z"}
+MCHostOf(hc) ==
   CASE hc = "dns" -> <<101, 99, 117, 49>>   \* ecu1
     [] hc = "v4" -> <<49, 48, 46, 48, 46, 48, 46, 57>>   \* 10.0.0.9
     [] hc = "v6full" -> <<102, 101, 56, 48, 58, 48, 58, 48, 58, 48, 58, 48, 58, 48, 58, 48, 58, 49>>   \* fe80:0:0:0:0:0:0:1
     [] hc = "v6c" -> <<102, 101, 56, 48, 58, 58, 49>>   \* fe80::1
     [] hc = "v6z" -> <<102, 101, 56, 48, 58, 58, 49, 37, 101, 48>>   \* fe80::1%e0
-Ports  == {NoPort, 0, 1, 65535}
-Notas  == {"scanner", "dec", "hex", "oct", "bin", "mixed"}
-Trs    == {"doip", "hsfz", "isotp"}
 
 Req(tr) == {i \in 1..Len(Fields(tr)) : Fields(tr)[i].req}
 All(tr) == 1..Len(Fields(tr))
@@ -20,19 +17,6 @@ Q_Subs(tr) == {Req(tr), All(tr), {}} \cup {Req(tr) \cup {i} : i \in All(tr)}
               \cup {Req(tr) \ {i} : i \in Req(tr)} \cup {All(tr) \ {i} : i \in All(tr)}
 \* thorough: every subset of the transport's settings (16 + 8 + 1024)
 T_Subs(tr) == SUBSET All(tr)
-
-UriCases(Subs(_)) ==
-  UNION { {[mode |-> "uri", tr |-> tr, hc |-> hc, host |-> HostOf(hc), port |-> p, fields |-> fs, nota |-> n] :
-             hc \in HostClasses, p \in Ports, fs \in Subs(tr), n \in Notas} : tr \in Trs }
-HpCases ==
-  {[mode |-> "hp", hc |-> hc, host |-> HostOf(hc), port |-> p, dflt |-> d] :
-      hc \in HostClasses, p \in Ports \ {NoPort}, d \in {NoPort, 7}}
-  \cup {[mode |-> "split", hc |-> hc, host |-> HostOf(hc), port |-> p, dflt |-> d] :
-      hc \in HostClasses, p \in Ports, d \in {NoPort, 7}}
-
-Q_Cases == UriCases(Q_Subs) \cup HpCases
-T_Cases == UriCases(T_Subs) \cup HpCases
 \* small: liveness / negative controls
 S_Subs(tr) == {Req(tr), All(tr)}
-S_Cases == UriCases(S_Subs) \cup HpCases
 =============================================================================
